@@ -235,7 +235,7 @@ fn run_scenario(i: u64, seed: u64, c: &mut Counters) -> Vec<Violation> {
     c.add("admission_serial_orders", n_orders as u64);
     if p > 0 {
         c.inc("scenarios_discarded_ill_formed");
-        c.sample(|| json!({"discarded": msg}));
+        c.note("discarded_scenarios", || format!("seed {seed}: {msg:?}"));
         return vec![];
     }
     if b > 0 {
